@@ -899,6 +899,20 @@ def special_inputs_phase(ctx):
                                   tags=dict(op=opname, clause="value"))
     finally:
         shutil.rmtree(tmpd, ignore_errors=True)
+    # `in_place` is a truth value: numpy.False_ (the result of a comparison), 0 and None are "not in place" like False
+    for falsy in (np.False_, 0, None, np.bool_(False)):
+        for opname, obj in (("pre", P.Preemphasize(0.5)), ("dither", P.Dither(1.0))):
+            case = dict(op=opname + "_falsy_in_place", in_place=repr(falsy), n=len(base))
+            ctx.case(case, kind="falsy_in_place:" + opname)
+            x = base.copy()
+            try:
+                obj.apply(x, in_place=falsy)
+            except Exception as e:
+                ctx.violation(case, "a result", "%s: %s" % (type(e).__name__, e), "apply accepts a falsy in_place", tags=dict(op=opname, clause="raises"))
+                continue
+            if not np.array_equal(x, base):
+                ctx.violation(case, "input unchanged", "modified", "unless in_place is set (truthy) the input is left untouched",
+                              tags=dict(op=opname, clause="input_untouched"))
     # `coeff` is a documented public attribute: an object whose coeff was re-assigned IS the pre-processor with the new value
     for c0, c1 in ((0.97, 0.5), (0.5, 0.0), (0.0, 0.25)):
         p = P.Preemphasize(c0)
